@@ -46,6 +46,55 @@ def array_of_composites_with_signed(t):
     return False
 
 
+def _int_leaves(t, v, path, out):
+    """(path, number) for every signed integer leaf of the value"""
+    k = t["k"]
+    if k == "int":
+        if gt.INTS[t["t"]][0]:
+            out.append((path, v))
+    elif k == "array":
+        for x in v:
+            _int_leaves(t["elem"], x, path + ("[]",), out)
+    elif k == "tuple":
+        for i, (tt, x) in enumerate(zip(t["ts"], v)):
+            _int_leaves(tt, x, path + (i,), out)
+    elif k == "struct":
+        for f, tt in t["fields"]:
+            _int_leaves(tt, v[1][f], path + (f,), out)
+    elif k == "enum":
+        for n, _, ts in t["variants"]:
+            if n == v[1]:
+                for i, (tt, x) in enumerate(zip(ts, v[2] or [])):
+                    _int_leaves(tt, x, path + (n, i), out)
+
+
+def mixed_sign_in_array_of_composites(t, v):
+    """some array of tuples / arrays / structs / enums holds, at the same position of two elements, a negative and a
+    non-negative number (the recorded finding: such a value is printed without suffixes and not parsed back)"""
+    k = t["k"]
+    if k == "array":
+        e = t["elem"]
+        if e["k"] not in ("int", "bool"):
+            seen = {}
+            for x in v:
+                leaves = []
+                _int_leaves(e, x, (), leaves)
+                for p, n in leaves:
+                    seen.setdefault(p, set()).add(n < 0)
+            if any(len(s) == 2 for s in seen.values()):
+                return True
+        return any(mixed_sign_in_array_of_composites(e, x) for x in v)
+    if k == "tuple":
+        return any(mixed_sign_in_array_of_composites(tt, x) for tt, x in zip(t["ts"], v))
+    if k == "struct":
+        return any(mixed_sign_in_array_of_composites(tt, v[1][f]) for f, tt in t["fields"])
+    if k == "enum":
+        for n, _, ts in t["variants"]:
+            if n == v[1]:
+                return any(mixed_sign_in_array_of_composites(tt, x) for tt, x in zip(ts, v[2] or []))
+    return False
+
+
 def judge_prog(case, impl, model, meta, stats):
     fs = []
     t = meta["ty"]
@@ -91,13 +140,14 @@ def judge_prog(case, impl, model, meta, stats):
                     fs.append(Failure("oracle", f"wrong-bits:{kind}", f"as_bits differs from the documented layout ({len(r.get('bits',''))} vs {len(exp_bits)} bits)", sub, exp_bits, r.get("bits")))
                 if r.get("decoded") != canon:
                     fs.append(Failure("oracle", f"decode-differs:{kind}", "parse_output(as_bits(l)) is not the canonical value", sub, canon, r.get("decoded")))
-                if r.get("text_roundtrip") != "same" and "()" in (r.get("text") or "") and r.get("text") != "()" and "[]" not in r.get("text"):
+                if r.get("text_roundtrip") == "parse-err" and mixed_sign_in_array_of_composites(t, v) and "[]" not in (r.get("text") or ""):
+                    # (checked first: such a text may also contain a `()`, which is not what makes it unparseable)
+                    fs.append(Failure("oracle", "text-roundtrip:mixed-sign-unsuffixed-numbers-in-array-of-composites",
+                                      f"printing and parsing back: parse-err (text {r.get('text')!r})", sub, "same", r.get("text_roundtrip")))
+                elif r.get("text_roundtrip") != "same" and "()" in (r.get("text") or "") and r.get("text") != "()" and "[]" not in r.get("text"):
                     fs.append(Failure("oracle", "text-roundtrip:nested-unit-literal", f"printing and parsing back: {r.get('text_roundtrip')} (text {r.get('text')!r})", sub, "same", r.get("text_roundtrip")))
                 elif r.get("text_roundtrip") != "same" and "[]" in (r.get("text") or ""):
                     fs.append(Failure("oracle", "text-roundtrip:empty-array-literal", f"printing and parsing back: {r.get('text_roundtrip')} (text {r.get('text')!r})", sub, "same", r.get("text_roundtrip")))
-                elif r.get("text_roundtrip") == "parse-err" and "-" in (r.get("text") or "") and array_of_composites_with_signed(t):
-                    fs.append(Failure("oracle", "text-roundtrip:mixed-sign-unsuffixed-numbers-in-array-of-composites",
-                                      f"printing and parsing back: parse-err (text {r.get('text')!r})", sub, "same", r.get("text_roundtrip")))
                 elif r.get("text_roundtrip") != "same":
                     fs.append(Failure("oracle", f"text-roundtrip:{kind}", f"printing and parsing back: {r.get('text_roundtrip')} (text {r.get('text')!r})", sub, "same", r.get("text_roundtrip")))
                 if r.get("identity") != canon:
